@@ -14,7 +14,7 @@ RULE = ("worlds from dsim.world (1-8 stations, chains of sessions per station wi
         "station reuse or >=1 period with >=3 events; distinct = distinct per-period history signature "
         "<event kinds, invoked?, fault, #connected, #charging>")
 PROBES = ["deepcopy_branch_run", "can_receive_current_checked", "back_to_back", "pileup3", "recompute_only_period", "resumed", "stay1", "idle_prefix", "crash_last_period",
-          "constraint_free_sorted", "custom_event_in_run", "resume_json", "stochastic_network_world", "stochastic_json_resume", "second_life", "duplicate_session_id_world"]
+          "constraint_free_sorted", "custom_event_in_run", "resume_json", "stochastic_network_world", "stochastic_json_resume", "second_life", "duplicate_session_id_world", "placeholder_station_labels"]
 FAULT_DIMENSION = "scheduler crash at arbitrary calls (incl. last period), resumed by rerun or via a JSON save/load of the simulator"
 ASSUMPTIONS = ["sessions of one station do not overlap (generator guarantees it)",
                "plug-in event timestamp == ev.arrival",
@@ -32,7 +32,15 @@ P_STOCH = world.profile(zero_demand=0.1, net="stochastic", stations=(1, 4), faul
 def gen(rs, tier):
     if rs % 8 == 0:
         # a ChargingNetwork subclass (contrib StochasticNetwork): event-level clauses only (who sits where is C19's business)
-        return world.gen_world(rs, P_STOCH)
+        sc = world.gen_world(rs, P_STOCH)
+        rp = world.sub(rs, "placeholder")
+        if sc["party"]["kind"] != "scripted" and rp.random() < 0.5:
+            # sessions labelled the way the library's own generator labels them for this network: with a placeholder space
+            # ('station_<row>') that is no registered station - the network assigns the real space at plug-in time
+            for i, s_ in enumerate(sc["sessions"]):
+                s_["station"] = "station_%d" % i
+            sc["placeholder_stations"] = True
+        return sc
     P = PROFILE
     if tier == "thorough" and rs % 10 == 0:
         P = dict(P, stations=(4, 12), horizon=(20, 120), sessions_cap=30)
@@ -86,6 +94,8 @@ def check(sc):
     stoch = sc["network"]["kind"] == "stochastic"
     if stoch:
         out.probe("stochastic_network_world")
+        if sc.get("placeholder_stations"):
+            out.probe("placeholder_station_labels")
         out.probe("stochastic_json_resume", sum(1 for r in tr.resumes if r["mode"] != "rerun"))
     if not ok:
         return out
